@@ -121,12 +121,19 @@ class sptenmat:
             "Incorrect specification of dimensions, the sorted concatenation of "
             "rdims and cdims must be range(len(tshape))."
         )
-        assert subs.size == 0 or np.prod(np.array(tshape)[rdims]) >= np.max(
+        assert subs.size == 0 or (
+            subs.ndim == 2 and subs.shape[1] == 2 and np.min(subs) >= 0
+        ), "Subscripts must be a matrix of non-negative (row, column) pairs."
+        assert subs.size == 0 or np.prod(np.array(tshape)[rdims]) > np.max(
             subs[:, 0]
         ), "Invalid row index."
-        assert subs.size == 0 or np.prod(np.array(tshape)[cdims]) >= np.max(
+        assert subs.size == 0 or np.prod(np.array(tshape)[cdims]) > np.max(
             subs[:, 1]
         ), "Invalid column index."
+        nsubs = subs.shape[0] if subs.size > 0 else 0
+        assert vals.size == nsubs and (
+            vals.size == 0 or vals.shape == (nsubs, 1)
+        ), "Values must be a column with one entry per subscript."
 
         # Sum any duplicates
         newsubs = subs
